@@ -345,20 +345,22 @@ func (jenny RawTypes) defaultsForStructRec(context languages.Context, objectRef 
 			constRef := field.Type.AsConstantRef()
 			t := context.ResolveRefs(ast.NewRef(constRef.ReferredPkg, constRef.ReferredType))
 
-			if !t.IsEnum() {
-				break
-			}
-
-			for _, member := range t.AsEnum().Values {
-				if member.Value == constRef.ReferenceValue {
-					defaultValue = member.Name
-					break
+			if t.IsEnum() {
+				for _, member := range t.AsEnum().Values {
+					if member.Value == constRef.ReferenceValue {
+						defaultValue = member.Name
+						break
+					}
 				}
-			}
 
-			referredPkg = jenny.packageMapper(constRef.ReferredPkg)
-			if referredPkg != "" {
-				defaultValue = referredPkg + "." + defaultValue
+				referredPkg = jenny.packageMapper(constRef.ReferredPkg)
+				if referredPkg != "" {
+					defaultValue = referredPkg + "." + defaultValue
+				}
+			} else {
+				// not a member of an enum: the constant itself (a `break` here would
+				// leave the loop over the fields)
+				defaultValue = formatScalar(constRef.ReferenceValue)
 			}
 		} else if field.Type.IsArray() {
 			defaultValue = "[]" + jenny.typeFormatter.formatType(field.Type.Array.ValueType) + "{}"
